@@ -50,6 +50,14 @@ func (s *Service) OnLastWill(sub message.Subscriber, ev *event.Connection) bool 
 		msg.TTL = message.RetainedTTL
 	}
 
+	// If a TTL was specified on the will topic, use that value (as for any other publish)
+	if ttl, ok := channel.TTL(); ok && ttl > 0 {
+		if ttl > message.RetainedTTL {
+			ttl = message.RetainedTTL
+		}
+		msg.TTL = uint32(ttl)
+	}
+
 	// Store the message if needed
 	if msg.Stored() && key.HasPermission(security.AllowStore) {
 		s.store.Store(msg)
